@@ -68,7 +68,7 @@ def pdesc(p, raw=False):
 def sock_desc(s):
     kind = "raw" if isinstance(s, tco_mod.RawAccessPoint) else "ldl" if isinstance(s, tco_mod.LogicalDataLink) else "dlc"
     d = dict(kind=kind, q=[pdesc(p, kind == "raw") for p in s.send_queue], est=False, ack="none",
-             rbusy=False, bsent=False)
+             rbusy=False, bsent=False, lsn=bool(s.state.LISTEN))
     if kind == "dlc":
         est = bool(s.state.ESTABLISHED)
         d["est"] = est
